@@ -73,7 +73,16 @@ class PCfg(object):
         else:
             raise ValueError(kind)
 
+    reuse = False       # True: every make() answers the SAME printer object (a printer is reusable: C14)
+
     def make(self):
+        if self.reuse:
+            if getattr(self, '_inst', None) is None:
+                self._inst = self._make()
+            return self._inst
+        return self._make()
+
+    def _make(self):
         from calmjs.parse import rules
         from calmjs.parse.unparsers import es5
         if self.kind == 'minify':
@@ -892,6 +901,14 @@ def run(ctx):
             sel = sel[:2]
         ctx.bump('big-scope:%d' % n)
         chk.process(text, sel, 'big-scope', do_agree=(n <= 230))
+    # one printer OBJECT used for several programs in a row (a small one first, then scopes that need more than 226 names:
+    # the reserved-word skip list and the name generator must be as good on the n-th call as on the first)
+    for cfg in (PCfg('minify', False, False), PCfg('minify', True, True, True), PCfg('indentK', False, False)):
+        cfg.reuse = True
+        for text in ('function f(a, b) { var c = a + b; return c; }', big_scope(brng, 240), big_scope(brng, 500),
+                     'function g(x) { try { y(x); } catch (e) { return e; } }'):
+            ctx.bump('reused-printer')
+            chk.process(text, [cfg], 'reused-printer', do_tie=False, do_agree=False)
     chk.gen_tie(ctx.sub_rng('gen'), ctx.n(60, 600))
     # known-finding witnesses
     for e in ctx.known_findings:
